@@ -183,6 +183,18 @@ func judge(r *vrt.R, sc *Scenario, x *mcrt.Exec, cfg *mcrt.Config) string {
 			}
 		}
 	}
+	if mcrt.RaceOn {
+		// race builds: every report the detector produced during this execution is attributed to it. Reports whose
+		// accesses are in harness or engine code are counted but are not the property's subject.
+		for _, rr := range newRaceReports() {
+			if !rr.Relevant {
+				r.Add("race_reports_outside_repository_code", 1)
+				continue
+			}
+			r.Violation(rr.Sig(), fmt.Sprintf("[%s] data race between %s (%s) and %s (%s)", sc.Name, rr.TopA, rr.FileA, rr.TopB, rr.FileB),
+				map[string]any{"scenario": sc.Name, "choices": x.Choices, "schedule": scheduleOf(x), "deviations": x.Describe(), "report": rr.Text})
+		}
+	}
 	if sig != "" {
 		// confirm: the same choice sequence must fail again (three replays) before it is reported
 		for i := 0; i < 3; i++ {
